@@ -39,6 +39,9 @@ pub fn name_key(l: &Labels) -> String {
 
 #[derive(Clone, Debug)]
 pub struct GroupVerdict {
+    /// section of the response the RRset stands in (0 answer, 1 authority); an RRset and its
+    /// RRSIGs are looked for within one section, as the validator does
+    pub sec: u8,
     pub owner: Labels,
     pub class: u16,
     pub rtype: u16,
@@ -66,11 +69,12 @@ struct KeyCand {
 
 pub struct Parsed {
     pub answers: Vec<Rr>,
+    pub authorities: Vec<Rr>,
 }
 
 pub fn parse(bytes: &[u8]) -> Option<Parsed> {
     let w = wire::walk(bytes).ok()?;
-    Some(Parsed { answers: w.answers.iter().map(|r| sigref::expand(bytes, r)).collect() })
+    Some(Parsed { answers: w.answers.iter().map(|r| sigref::expand(bytes, r)).collect(), authorities: w.authorities.iter().map(|r| sigref::expand(bytes, r)).collect() })
 }
 
 fn is_anchor(anchors: &[(u8, Vec<u8>)], k: &Dnskey) -> bool {
@@ -206,13 +210,14 @@ fn encloses(signer: &Labels, owner: &Labels) -> bool {
     s.len() <= o.len() && o[o.len() - s.len()..] == s[..]
 }
 
-/// Evaluate the predicate for every RRset in the answer section of the response to `query`.
+/// Evaluate the predicate for every RRset in the answer and authority sections of the response to `query`.
 pub fn evaluate(table: &Table, anchors: &[(u8, Vec<u8>)], query: &(String, u16), now: u32) -> Option<Vec<GroupVerdict>> {
     let bytes = table.get(query)?;
     let p = parse(bytes)?;
-    let sigs = rrsigs(&p.answers);
     let mut out = vec![];
-    for g in groups(&p.answers) {
+    for (sec, rrs) in [(0u8, &p.answers), (1u8, &p.authorities)] {
+      let sigs = rrsigs(rrs);
+      for g in groups(rrs) {
         let canon = canon_of(&g);
         let mut unknown = false;
         let mut best: Option<Vec<&'static str>> = None;
@@ -259,6 +264,7 @@ pub fn evaluate(table: &Table, anchors: &[(u8, Vec<u8>)], query: &(String, u16),
             Some(f) => (false, f.join("+")),
         };
         out.push(GroupVerdict {
+            sec,
             owner: g.owner.clone(),
             class: g.class,
             rtype: g.rtype,
@@ -272,6 +278,7 @@ pub fn evaluate(table: &Table, anchors: &[(u8, Vec<u8>)], query: &(String, u16),
             // every passing candidate has a signer that does not enclose the owner
             passing_signer_not_enclosing: not_enclosing && !some_enclosing,
         });
+      }
     }
     Some(out)
 }
